@@ -100,7 +100,7 @@ where
 /// Checks that the provided headers satisfy the requirements of (<https://www.rfc-editor.org/rfc/rfc7797#section-3>).
 pub(crate) fn validate_b64(protected: Option<&JwsHeader>, unprotected: Option<&JwsHeader>) -> Result<()> {
   // The "b64" parameter MUST be integrity protected
-  if unprotected.and_then(JwsHeader::b64).is_some() {
+  if unprotected.map(|header| header.has("b64")).unwrap_or_default() {
     return Err(Error::InvalidParam("unprotected `b64` parameter"));
   }
 
